@@ -59,10 +59,16 @@ Definition with_aff (t : tx) (a : aff) : tx :=
 Definition expand_with (affs : list aff) (l : list tx) : list tx :=
   flat_map (fun t => if is_split (t_act t) && t_glob t then map (with_aff t) affs else [t]) l.
 
-Definition replace_global_splits (l : list tx) : res (list tx) :=
+(* [has_init]: an opening position was given for the security; its holder,
+   the default affiliate, is split too even without a row of its own *)
+Definition holders (has_init : bool) (l : list tx) : list aff :=
+  sort_affs (fold_left (fun acc t => if t_glob t then acc else add_aff (t_af t) acc) l
+                       (if has_init then [default_aff] else [])).
+
+Definition replace_global_splits (has_init : bool) (l : list tx) : res (list tx) :=
   if negb (global_split_check [] l) then Rej RejGlobalSplitNear else
   if negb (existsb (fun t => is_split (t_act t) && t_glob t) l) then Ok l else
-  let affs := match non_global_affs l with [] => [default_aff] | a => a end in
+  let affs := match holders has_init l with [] => [default_aff] | a => a end in
   Ok (expand_with affs l).
 
 Definition init_for (inits : list (N * status)) (s : N) : option status := alookup s inits.
@@ -75,9 +81,13 @@ Section WithArith.
     match secs with
     | [] => Ok []
     | s :: r =>
-        l <- replace_global_splits (txs_of_sec s all) ;;
         rest <- run_secs inits all r ;;
-        Ok ((s, run A (init_for inits s) l) :: rest)
+        match replace_global_splits (match init_for inits s with Some _ => true | None => false end)
+                                    (txs_of_sec s all) with
+        | Ok l => Ok ((s, run A (init_for inits s) l) :: rest)
+        | Rej e => Ok ((s, ([], Some (SRej e))) :: rest)
+        | Panic p => Ok ((s, ([], Some (SPanic p))) :: rest)
+        end
     end.
 
   Definition run_app (inits : list (N * status)) (rows : list tx)
